@@ -235,6 +235,33 @@ def lookup_table_tzif(rep, prog, rule="LOOKUP-TABLE"):
                     rep.violation(rule, key, "AmbiguousOffset::%s built under transition kind %s with before=%s after=%s"
                                   % (var, arm, show(d.get("before"), maxd=5), show(d.get("after"), maxd=5)), "src/tz/tzif.rs:%s" % s.get("ln"))
     rep.floor(rule + " tzif aggregates", n, 2)
+    # every answer that is not taken from the matched transition's own gap/fold window - the delegation to the POSIX
+    # rule and the unambiguous answer - comes after the switch over the matched transition's kind, and that switch
+    # has explicit arms for Gap and for Fold (a civil datetime inside the window of the last transition must not reach
+    # the POSIX rule, which knows nothing about that transition)
+    kind_sw = []
+    for bi, b in enumerate(f.blocks):
+        t = b["term"]
+        if t["t"] == "switch":
+            c = T.operand(t["op"], 0, (bi, "term"))
+            if c[0] == "disc" and is_call(c[1], "::transition_kind"):
+                handled = {names.get(v) for v in t["vals"]}
+                if {"Gap", "Fold"} <= handled:
+                    kind_sw.append(bi)
+    m = 0
+    for bi, t in mir.iter_calls(f):
+        p_ = t.get("path", "")
+        if p_.endswith("::to_ambiguous_kind") and "posix" in p_.lower():
+            m += 1
+            key = "tzif posix delegation#%d" % m
+            loc = "src/tz/tzif.rs:%s" % t["span"]["line"]
+            if any(cfg.dominates(sb, bi) for sb in kind_sw):
+                rep.ok(rule, key, how="after the Gap/Fold switch over the matched transition's kind", loc=loc)
+            else:
+                rep.violation(rule, key, "the POSIX rule is consulted on a path that does not pass the switch over the matched "
+                              "transition's kind with arms for both Gap and Fold: a datetime inside that transition's own gap/fold "
+                              "window is answered by the rule", loc)
+    rep.floor(rule + " tzif posix delegations", m, 1)
 
 
 def lookup_table_posix(rep, prog, rule="LOOKUP-TABLE"):
